@@ -22,7 +22,7 @@ use crate::{
 	info::{Info, SpatialTrackInfo},
 	listener::ListenerId,
 	playback_state_manager::PlaybackStateManager,
-	sound::Sound,
+	sound::{PlaybackState, Sound},
 	Decibels, Easing, Frame, Parameter, StartTime, Tween, Tweenable,
 };
 
@@ -172,6 +172,12 @@ impl Track {
 		let changed_playback_state = self
 			.playback_state_manager
 			.update(dt * out.len() as f64, &info);
+		// a track has no "stopped" state: if the clock it was waiting for to
+		// resume no longer exists, the resume is cancelled and it stays paused
+		// (and can be resumed again)
+		if self.playback_state_manager.playback_state() == PlaybackState::Stopped {
+			self.playback_state_manager.mark_as_paused();
+		}
 		if changed_playback_state {
 			self.update_shared_playback_state();
 		}
